@@ -67,7 +67,12 @@ def rand_circuit(rng, labels, length, adjacent, touch_all_first=True):
 
 
 def add_measures(rng, ins, labels, subset=None):
-    meas = sorted(int(q) for q in (subset if subset is not None else rng.choice(labels, int(rng.integers(1, len(labels) + 1)), replace=False)))
+    """measure instructions for a random subset, issued in RANDOM qubit order (classical bit k = k-th measure issued): the k-th key
+    character is the bit of the k-th measured qubit, whatever the order; a prescribed subset is measured in the order given"""
+    if subset is not None: meas = [int(q) for q in subset]
+    else:
+        meas = [int(q) for q in rng.choice(labels, int(rng.integers(1, len(labels) + 1)), replace=False)]
+        if rng.random() < 0.4: meas.sort()
     out = list(ins)
     for k, q in enumerate(meas):
         out.append(("measure", [q], k))
